@@ -322,7 +322,12 @@ def finish(ctx, relevant, level="model_checking", extra_cov=None, rule=None):
         "rule": rule or "cases are the behaviours TLC enumerates (one per distinct terminal state) plus driver-chosen calls; "
                         "non-trivial = the model predicts a positive / structured outcome (see stages)",
         "samples": ctx.samples[:10] or [{"note": "no sample recorded"}],
-        "exhaustive": ctx.exhaustive, "stages": ctx.stages, "notes": ctx.notes,
+        # the TLC stages enumerate their (bounded) spaces completely; the driver stages (traces, sessions, large inputs,
+        # stress, measurements) sample beyond those bounds - so the run as a whole is not an exhaustive enumeration
+        "exhaustive": False,
+        "exhaustive_within_bounds_stages": [st["stage"] for st in ctx.stages if "tlc_distinct_states" in st],
+        "sampled_stages": [st["stage"] for st in ctx.stages if "tlc_distinct_states" not in st],
+        "stages": ctx.stages, "notes": ctx.notes,
         "foreign_mismatches_ignored": len(foreign), "known_finding_hits": {k: len(v) for k, v in knownhits.items()},
     }
     cov.update(extra_cov or {})
